@@ -32,7 +32,7 @@ import (
 
 const (
 	settleTime  = 60 * time.Millisecond   // time given to the worker to reach the blocking state
-	returnBound = 2 * time.Second         // "bounded time" of the property, generous
+	returnBound = 4 * time.Second         // "bounded time" of the property, generous (measured: ~100 us)
 	lateWatch   = 60 * time.Millisecond   // how long deliveries are watched for after the return
 )
 
